@@ -101,6 +101,10 @@ func (g *j5Gen) entityPlan(pkg string, k *j5Known, style int, nWords int) *jEnti
 		keys = append(keys, fld("plainKey", tKeyF("")))
 	}
 	if rng.Intn(3) == 0 {
+		// a key that says it is not primary
+		keys = append(keys, fld("altId", keyFmt().with(func(t *jT) { t.Primary = pB(false) })))
+	}
+	if rng.Intn(3) == 0 {
 		// an entity key that is not of type key
 		alt := []*jT{tScalar(kString), tInt("INT64"), tScalar(kDate), tScalar(kBool)}
 		keys = append(keys, fld("region", alt[rng.Intn(len(alt))]))
@@ -156,6 +160,9 @@ func (g *j5Gen) entityPlan(pkg string, k *j5Known, style int, nWords int) *jEnti
 		}
 		if i > 0 && svc.BasePath == "" {
 			svc.BasePath = []string{"admin", "ops"}[i%2] // both on /c would make equal paths likely
+		}
+		if rng.Intn(3) == 0 {
+			svc.Audience = []string{"internal", "partner"}[:1+rng.Intn(2)]
 		}
 		p.CommandSvc = append(p.CommandSvc, svcName)
 		for mi := 0; mi < 1+rng.Intn(2); mi++ {
